@@ -13,8 +13,8 @@ pub const NCLASS: u64 = 7;
 
 /// CID of key `k`; the prefix class (version, codec, hash function) is `k % 7`.
 pub fn cid_of_key(k: u64) -> Cid64 {
-    let data = format!("k{k}");
-    let d = data.as_bytes();
+    let data = preimage_of_key(k);
+    let d = &data[..];
     match k % NCLASS {
         0 => Cid64::new_v1(0x55, Code::Sha2_256.digest(d)),
         1 => Cid64::new_v1(0x70, Code::Sha2_256.digest(d)),
@@ -28,7 +28,20 @@ pub fn cid_of_key(k: u64) -> Cid64 {
 
 /// The bytes whose hash is the digest of `cid_of_key(k)`.
 pub fn preimage_of_key(k: u64) -> Vec<u8> {
-    format!("k{k}").into_bytes()
+    let mut d = format!("k{k}").into_bytes();
+    if is_big(k) {
+        // larger than a yamux receive window: exercises back-pressure on the sender's sink
+        d.push(b'#');
+        d.resize(BIG_LEN, b'x');
+    }
+    d
+}
+
+pub const BIG_LEN: usize = 400_000;
+
+/// Keys 90..=99 have big contents.
+pub fn is_big(k: u64) -> bool {
+    (90..100).contains(&k)
 }
 
 /// Data id `k * 100` is the honest content of key `k` (the bytes that hash to its CID);
@@ -42,10 +55,12 @@ pub fn data_of_id(d: u64) -> Vec<u8> {
 }
 
 pub fn id_of_data(b: &[u8]) -> Option<u64> {
-    let s = std::str::from_utf8(b).ok()?;
+    let head = &b[..b.len().min(24)];
+    let s = std::str::from_utf8(head).ok()?;
     if let Some(k) = s.strip_prefix('k') {
-        return k.parse::<u64>().ok().map(|k| k * 100);
+        return k.split('#').next()?.parse::<u64>().ok().map(|k| k * 100);
     }
+    let s = std::str::from_utf8(b).ok()?;
     s.strip_prefix("data-")?.parse().ok()
 }
 
